@@ -15,9 +15,9 @@ def world(name, obj=1, threading=0, key=0, arg=0, mode=0, map_=0, filt=0, order=
           compiler="g++", std="c++11", opt="-O1", only_tags=None, sanitize=True, cancont=0, mixins=0, moveonly=0, util=0):
     w = {"name": name, "source": "dq_interp.cpp",
          "defines": ["W_OBJ=%d" % obj, "W_THREADING=%d" % threading, "W_KEY=%d" % key, "W_ARG=%d" % arg, "W_MODE=%d" % mode, "W_MAP=%d" % map_,
-                     "W_FILTER=%d" % filt, "W_ORDER=%d" % order, "W_CALLBACK=%d" % callback, "W_FILL=%s" % fill] + (["W_CANCONT=1"] if cancont else []) + (["W_MIXINS=%d" % mixins] if mixins else []) + (["W_MOVEONLY=1"] if moveonly else []) + (["W_UTIL=1"] if util else []),
+                     "W_FILTER=%d" % filt, "W_ORDER=%d" % order, "W_CALLBACK=%d" % callback, "W_FILL=%s" % fill] + (["W_CANCONT=%d" % cancont] if cancont else []) + (["W_MIXINS=%d" % mixins] if mixins else []) + (["W_MOVEONLY=1"] if moveonly else []) + (["W_UTIL=1"] if util else []),
          "fraction": fraction, "compiler": compiler, "std": std, "opt": opt, "sanitize": sanitize,
-         "trace_env": {"ORDER": str(order), "CANCONT": str(cancont), "VETO": {0: "0", 1: "0", 2: "1", 3: "2", 4: "1"}[mixins]}}
+         "trace_env": {"ORDER": str(order), "CANCONT": "1" if cancont else "0", "VETO": {0: "0", 1: "0", 2: "1", 3: "2", 4: "1"}[mixins]}}
     if only_tags:
         w["only_tags"] = only_tags
     if moveonly:
@@ -108,7 +108,9 @@ def c12(tier, seed):
               world("f_cref_plain_veto", filt=1, arg=1, mixins=4, fraction=0.3, fill="0xFF", only_tags=["filters"]),
               world("w_val_cancont", filt=1, arg=0, cancont=1, only_tags=["wrappers"]),
               world("w_cref_incl_cancont", filt=1, arg=1, mode=1, key=2, cancont=1, threading=1, fraction=0.4, only_tags=["wrappers"]),
-              world("w_ref_nocancont", filt=1, arg=2, fraction=0.4, only_tags=["wrappers"], fill="0xFF")]
+              world("w_ref_nocancont", filt=1, arg=2, fraction=0.4, only_tags=["wrappers"], fill="0xFF"),
+              world("w_val_cancont_byvalue", filt=1, arg=0, cancont=2, fraction=0.5, only_tags=["wrappers"]),          # the policy takes the arguments by value
+              world("w_val_incl_cancont_byvalue", filt=1, arg=0, mode=1, key=1, cancont=2, fraction=0.3, only_tags=["wrappers"], fill="0x00")]
     return {"interp": "harness/dq_interp.cpp", "trace_module": "TraceDQ", "models": models, "worlds": worlds,
             "nontrivial_key": "nested",
             "rule": "every transition of the bounded DQImpl model with MixinFilter: filters added/removed (also from inside filters and listeners), scripted "
@@ -178,7 +180,7 @@ def c16(tier, seed):
                                         ops={"al", "rl", "ac", "ak", "dp"} | pos, nest={"dp", "rl"}, evkeys=(1,))})
     models.append({"module": "RemGen", "tag": "counter-cond-pos", "invariants": RINV,
                    "constants": rconsts(nodes=2 if quick else 3, removers=1, disp=2 if quick else 3, enq=0 if quick else 1, depth=2, counts=(-1, 0, 1, 2) if not quick else (0, 2),
-                                        ops={"al", "rl", "dp", "po", "nq"} | pos, nest={"dp", "rl"} if quick else {"dp", "rl", "ic", "qk"}, evkeys=(1,) if quick else (1, 2))})
+                                        ops={"al", "rl", "dp", "po", "nq"} | pos, nest={"dp", "rl", "ic"} if quick else {"dp", "rl", "ic", "qk"}, evkeys=(1,) if quick else (1, 2))})
     worlds = [world("k_queue", obj=1, only_tags=["counter-cond"], fraction=0.4 if quick else 1.0), world("k_queue_pos", obj=1, only_tags=["counter-cond-pos"]), world("k_queue_incl_str", obj=1, mode=1, key=1, arg=1, threading=1, fraction=0.3, fill="0xFF", only_tags=["counter-cond"]),
               world("k_queue_ref_hash", obj=1, arg=2, key=3, fraction=0.2, fill="0x00", only_tags=["counter-cond"]),
               world("k_list_multi", obj=2, threading=1, only_tags=["counter-cond-lists"]),           # CounterRemover / ConditionalRemover over CallbackList
